@@ -528,7 +528,8 @@ PROPS["C19"] = dict(
 # ------------------------------------------------------------------------------------------------ C18
 def es_jobs(tier, cons=(None, "bool")):
     jobs = []
-    for D, mu in (((1, 1), (1, 2), (2, 1)) if tier == "quick" else ((1, 1), (1, 2), (1, 3), (2, 1), (2, 2))):
+    # (measured: mu = 3 multiplies the sort/unique orderings of two generations beyond an hour; mu <= 2 is the bound)
+    for D, mu in (((1, 1), (1, 2), (2, 1)) if tier == "quick" else ((1, 1), (1, 2), (2, 1), (2, 2))):
         for c in cons:
             if tier == "quick" and D == 2 and c:
                 continue
@@ -548,7 +549,7 @@ C18_LABELS = {"empty_search_set_only_without_survivors", "returned_value_is_lowe
 PROPS["C18"] = dict(
     jobs=lambda tier: es_jobs(tier) + ss_jobs(tier, levels=(0, 1)), labels=C18_LABELS, required=sorted(C18_LABELS),
     bounds=dict(quick="ES search (ES-ell initialisation, real filter and gridding): mu=lambda in {1,2} for D=1, 1 for D=2, two generations, symbolic normal draws / acquisition values / constraint oracle; hedge: 2 and 3 strategies, symbolic scores, exploration floor concrete and symbolic in (0,1/n]; search step as C03",
-                thorough="mu up to 3 (D=1) and 2 (D=2)"),
+                thorough="mu = lambda up to 2 for D <= 2, with one logged row"),
     outside=["the rank-selection mask for (mu,lambda) up to a few hundred (a concrete enumeration with nothing symbolic)", "ES-wcm's covariance initialisation (scipy eigh)",
              "probabilities summing to 1-eps in floating point"],
     time_limit=dict(quick=900, thorough=5400))
